@@ -1,17 +1,11 @@
 import ESV.Decomp.ResolveItems
+import ESV.Decomp.GraphGuard
 /-
 The resolver's output only contains item names the graph theorem needs: a plain op is never `Jump`, and
 the root of a label jump is `Jump` or an op that does not end the flow.
 -/
 namespace ESV.Decomp
 open ESV.Beh
-
-def itemNameOk : Item → Bool
-  | .op o => !isJump o.name
-  | .ljump r _ _ => isJump r.name || !ESV.Spec.opsEndFlow.contains r.name
-  | .label _ => true
-
-def namesGuard (items : List Item) : Bool := items.all itemNameOk
 
 theorem withJump_endFlow :
     ∀ kv ∈ ESV.Spec.opsWithJump, (isJump kv.1 || !ESV.Spec.opsEndFlow.contains kv.1) = true := by decide
